@@ -1,6 +1,8 @@
 package bill
 
 import (
+	"slices"
+
 	"github.com/invopop/gobl/l10n"
 	"github.com/invopop/gobl/org"
 )
@@ -15,4 +17,14 @@ func partyTaxCountry(party *org.Party) l10n.TaxCountryCode {
 		return l10n.CodeEmpty.Tax()
 	}
 	return party.TaxID.Country
+}
+
+// dropNilRows removes the null entries from a list of rows, as found when a
+// JSON array contains "null", so that the normalizers and calculations only
+// need to deal with usable rows. Lists without null entries are not modified.
+func dropNilRows[T any](rows []*T) []*T {
+	if !slices.Contains(rows, nil) {
+		return rows
+	}
+	return slices.DeleteFunc(rows, func(r *T) bool { return r == nil })
 }
